@@ -765,6 +765,17 @@ func (s *scanner) ReadStreamData(dict Dict) (stm *Stream, err error) {
 		}
 	}()
 
+	// Without a file reader (inside an object stream, where streams are not
+	// allowed) the data can never be read.  This must be checked before
+	// /Length is resolved: an indirect /Length is looked up through a getter
+	// which may open object streams, and for a stream-like member whose
+	// /Length leads back into an object stream that lookup never ends.
+	if s.fileReader == nil {
+		return nil, &MalformedFileError{
+			Err: errors.New("cannot read stream data"),
+		}
+	}
+
 	// /Length is required, but real-world PDFs (and fuzz mutations) omit it,
 	// give an indirect length that cannot be resolved, or give a plainly wrong
 	// value.  Resolve a candidate here; a missing or unusable one is treated as
@@ -806,11 +817,6 @@ func (s *scanner) ReadStreamData(dict Dict) (stm *Stream, err error) {
 	}
 
 	origReader := s.fileReader
-	if origReader == nil {
-		return nil, &MalformedFileError{
-			Err: errors.New("cannot read stream data"),
-		}
-	}
 	start := s.CurrentPos()
 
 	var crypt *filterCrypt
